@@ -94,6 +94,9 @@ def execute(sc, mutant=None):
         if len(ci) != 1:
             raise common.MachineryError('cannot find the _check_for_answers callback')
         inner = cbs[ci[0]]
+        if sc.get('lines'):
+            # pre-emption between the statements of the answer check and of send_packet
+            s.yield_at_lines(inner, cf.send_packet)
 
         def checked(pk):
             mine = pk.port == PORT
@@ -218,6 +221,10 @@ def execute(sc, mutant=None):
         s.run(horizon=t_end)
         rep = s.report()
         dead = [t for t in rep if t['status'] == 'dead']
+        for t in dead:
+            # a library thread that ended with an exception (the dispatcher, a retry timer): from
+            # here on replies are not checked / the request is not retried any more
+            ev.append({'e': 'died', 'thread': str(t.get('name', '?')).split('#')[0], 't': int(round(t_end * 1000))})
         ev.append({'e': 'end', 't': int(round(t_end * 1000)), 'sess': dev.session if dev.link is not None else 0,
                    'strict': strict and not dead and u.finished})
     return {'ev': ev, 'reliable': sc['reliable'],
@@ -300,6 +307,12 @@ def systematic():
                 out.append({'ops': [('open',), ('send', p0), ('sleep', 0.05), (how,), ('sleep', 0.3), ('inject', PACKETS[1]),
                                     ('sleep', 0.3), (how,), ('sleep', 0.8)], 'recb': [p, p0],
                             'reliable': False, 'policy': ('random0', p)})
+    # (e) statement-level pre-emption inside _check_for_answers / send_packet: the dispatcher checks a
+    #     packet while the application registers another request
+    for seed in range(24):
+        for pk in (PACKETS[2], PACKETS[3], PACKETS[1]):
+            out.append({'ops': [('open',), ('send', 1), ('inject', pk), ('send', 2), ('inject', pk), ('send', 3), ('sleep', 0.7)],
+                        'lines': True, 'reliable': False, 'policy': (['random0', 'pct0'][seed % 2], seed)})
     # (c) a device that answers at once: the reply is handled while the sending thread is still
     #     inside send_packet (first transmission and retransmission)
     for p in (1, 2, 3):
@@ -381,6 +394,24 @@ def _send_packet_variant(variant):
             for i, cb in enumerate(cbs):
                 if getattr(cb, '__name__', '') == '_check_for_answers':
                     cbs[i] = check
+        if variant == 'live_patterns_iteration':
+            def check3(pk):
+                longest = ()
+                ap = cf._answer_patterns
+                if len(ap) > 0:
+                    data = (pk.header,) + tuple(pk.data)
+                    for p in ap:                      # the live dictionary, no snapshot of the keys
+                        if len(p) <= len(data) and p == data[0:len(p)]:
+                            if len(p) >= len(longest):
+                                longest = p
+                if len(longest) > 0:
+                    ap[longest].cancel()
+                    del ap[longest]
+            check3.__name__ = 'check'
+            cbs = cf.packet_received.callbacks
+            for i, cb in enumerate(cbs):
+                if getattr(cb, '__name__', '') == '_check_for_answers':
+                    cbs[i] = check3
         if variant == 'reread_patterns':
             def check2(pk):
                 data = (pk.header,) + tuple(pk.data)
@@ -399,7 +430,7 @@ def _send_packet_variant(variant):
 
 MUTANTS = {k: _send_packet_variant(k) for k in
            ('retry_on_reliable', 'no_identity', 'no_rearm', 'default_timeout', 'double_arm',
-            'resend_after_answer', 'cancel_shortest', 'reread_link', 'reread_patterns', 'register_after_send')}
+            'resend_after_answer', 'cancel_shortest', 'reread_link', 'reread_patterns', 'register_after_send', 'live_patterns_iteration')}
 
 
 def _mut_stale_patterns(cf):
@@ -677,9 +708,11 @@ def main(tier, seed, replay=None):
     sub = systematic()[::2] + [gen_scenario(random.Random(seed + 7 + i), reliable=(i % 5 == 0)) for i in range(200)]
     races = [sc for sc in systematic() if sc['policy'][0] == 'park']
     recbs = [sc for sc in systematic() if sc.get('recb')]
+    liners = [sc for sc in systematic() if sc.get('lines')]
     for name in sorted(MUTANTS):
         mt = run_scenarios(races if name in ('reread_link', 'reread_patterns', 'register_after_send') else
-                           recbs if name == 'patterns_reset_after_callbacks' else sub, mutant=name)
+                           recbs if name == 'patterns_reset_after_callbacks' else
+                           liners if name == 'live_patterns_iteration' else sub, mutant=name)
         for i, t in enumerate(mt):
             t['id'] = i + 1
         o2 = common.Outcome('C10', tier, seed)
